@@ -395,6 +395,7 @@ Proof.
   destruct (exec_actions_CLh InConstruct (body p 0) s2) as [H1 [H2 _]].
   pose proof (exec_actions_hstep InConstruct (body p 0) s2) as Hh.
   destruct (exec_actions InConstruct s2 (body p 0)) as [s3 failed]. cbn [fst] in *.
+  destruct failed; [discriminate|].
   intros H. injection H as <-.
   assert (P2 : pend s2 = []).
   { unfold s2, sc, s0, do_cleanup. destruct (worker (set_pend [] s)); reflexivity. }
@@ -404,10 +405,10 @@ Proof.
     - unfold s2. ssimpl. constructor.
     - unfold s2. ssimpl. intros e x []. }
   destruct (H2 W2) as [[W3a W3b W3c] C3]. rewrite P2 in C3. change (count_warm []) with 0%nat in C3.
-  set (s4 := if failed then raise_flag s3 else s3).
+  set (s4 := s3).
   set (s5 := set_ps PInit (set_rs RInit s4)).
   assert (F : pend s4 = pend s3 /\ created s4 = created s3 /\ nid s4 = nid s3 /\ rep s4 = Some r /\ clock s4 = r_start r).
-  { unfold s4. destruct failed; ssimpl; rewrite H1, (hs_clock _ _ Hh); auto. }
+  { unfold s4. ssimpl; rewrite H1, (hs_clock _ _ Hh); auto. }
   destruct F as [F1 [F2 [F3 [F4 F5]]]].
   change (clock s5) with (clock s4). rewrite F5.
   destruct (Z.ltb_spec (r_warm r) (r_start r)) as [Hlt|Hge].
@@ -441,10 +442,17 @@ Proof.
     { destruct res.
       - pose proof (accept_refuse_table_inv fuel p s c) as T. rewrite H in T. cbn [snd] in T.
         destruct (rs s) eqn:Ers; try reflexivity. exfalso.
-        assert (T' : ResOk = table_of s c).
+        assert (T' : ResOk = table_of p s c).
         { apply T. cbn. discriminate. }
         unfold table_of in T'. rewrite ?Ers in T'. destruct c; try discriminate.
-      - apply refused_changes_nothing in H. subst s1. exact Hi. }
+      - apply refused_changes_nothing in H. subst s1. exact Hi.
+      - (* only an initialize can be aborted by the model *)
+        exfalso. pose proof (accept_refuse_table_inv fuel p s c) as T. rewrite H in T. cbn [snd] in T.
+        assert (T' : ResRaised = table_of p s c).
+        { apply T. intros Hi'. destruct (qi_rep _ _ Q Hi') as [r' [Hr' _]]. congruence. }
+        unfold table_of, table in T'. destruct c; try discriminate;
+          repeat match type of T' with context [if ?x then _ else _] => destruct x end;
+          try discriminate; destruct (ps s); discriminate. }
     destruct (Cw Hi0) as [W C]. destruct (R2 W) as [W1 [l [L1 L2]]].
     split; [exact W1|].
     unfold warm_scheduled. rewrite R1. intros Hs. specialize (C Hs).
@@ -467,15 +475,20 @@ Proof.
             set (s2 := set_created [] (set_clock (r_start r) (set_rep (Some r) (set_worker WAlive sc)))) in *.
             pose proof (exec_actions_construct (body p 0) s2) as [_ Hn].
             destruct (exec_actions InConstruct s2 (body p 0)) as [s3 failed]. cbn [fst] in *.
+            destruct failed; [discriminate|].
             injection H as <-.
             apply (new_ntfs_app _ _ []).
             assert (N2 : ntfs s2 = ntfs s).
             { unfold s2, sc, s0, do_cleanup. destruct (worker (set_pend [] s)); reflexivity. }
-            destruct failed; destruct (r_warm r <? _); ssimpl; rewrite Hn, N2; reflexivity. }
+            destruct (r_warm r <? _); ssimpl; rewrite Hn, N2; reflexivity. }
           rewrite N in F. cbn [mon_feed] in F. injection F as <-. reflexivity. }
         subst m1. exact C.
       * apply refused_changes_nothing in H. subst s1. cbn [mon_reset] in F.
         rewrite new_ntfs_same in F. cbn [mon_feed] in F. injection F as <-. apply Cw. exact Hi.
+      * (* aborted by construct_model: not initialized afterwards *)
+        exfalso. cbn [mon_reset] in F.
+        destruct (new_ntfs s s1) as [|n l]; cbn [mon_feed] in F; [injection F as <-|cbn in F; discriminate].
+        destruct (agrees_inv _ _ _ (qi_agree _ _ Q1)) as [A _]. cbn in A. congruence.
     + (* cleanup: not initialized afterwards *)
       cbn [do_cmd] in H. injection H as <- <-. cbn in Hi. discriminate.
 Qed.
